@@ -82,6 +82,106 @@ func (r *Run) indexTotality(rule string, fn *ssa.Function, isEntry bool) {
 				}
 			}
 		}
+		// (c2) the same, with values compared by their canonical description (go/ssa
+		// does not share `i+1` between the loop test and the index expression)
+		for _, g := range CmpGuards(in.Block()) {
+			if !g.Strict || Desc(stripConv(g.Lo)) != Desc(stripConv(idx)) {
+				continue
+			}
+			if s := isLenOf(g.Hi); s != nil {
+				if Desc(s) == Desc(base) {
+					r.Ok(rule, construct, in.Pos(), "index < len(base)")
+					return
+				}
+				// base = make([]T, len(S)) indexed under idx < len(S)
+				if mk, isMk := stripConv(base).(*ssa.MakeSlice); isMk {
+					if ls := isLenOf(mk.Len); ls != nil && Desc(ls) == Desc(s) {
+						r.Ok(rule, construct, in.Pos(), "index < len(S) into make([]T, len(S))")
+						return
+					}
+				}
+			}
+		}
+		// (c3) len(base) == K established, constant position within K
+		if k, isC := constInt(idx); isC {
+			for _, f := range Facts(in.Block()) {
+				for _, form := range []string{"+(const:%d == len(" + Desc(base) + "))", "+(len(" + Desc(base) + ") == const:%d)"} {
+					var n int64
+					if _, err := fmt.Sscanf(f, form, &n); err == nil && (k < n || (kind == "slice" && k <= n)) {
+						r.Ok(rule, construct, in.Pos(), fmt.Sprintf("constant %d within the checked length %d", k, n))
+						return
+					}
+				}
+			}
+		}
+		// (c4) counting down from len(base)-1 while idx >= 0
+		if phi, isPhi := stripConv(idx).(*ssa.Phi); isPhi && len(phi.Edges) == 2 {
+			okStart, okStep := false, false
+			for _, e := range phi.Edges {
+				c, ts := AffineTerms(e)
+				if c == -1 && len(ts) == 1 && ts[0].K == 1 {
+					if l := isLenOf(ts[0].V); l != nil && Desc(l) == Desc(base) {
+						okStart = true
+					}
+					if ts[0].V == ssa.Value(phi) {
+						okStep = true
+					}
+				}
+			}
+			if okStart && okStep && HasFact(Facts(in.Block()), `^\+\(const:0 <= phi\{`) {
+				r.Ok(rule, construct, in.Pos(), "index counts down from len(base)-1 and is >= 0")
+				return
+			}
+		}
+		// (c5) a slice made with the length of another one and indexed in step with it:
+		// xs = make([]T, len(S)) (possibly kept in a field) … for i := range S { xs[i] … } or
+		// for i := range xs { … S[i] … }
+		{
+			madeWithLenOf := func(v ssa.Value) string { // "" or Desc(S) when v is (a field holding) make([]T, len(S))
+				v = stripConv(v)
+				if mk, ok := v.(*ssa.MakeSlice); ok {
+					if ls := isLenOf(mk.Len); ls != nil {
+						return Desc(ls)
+					}
+					return ""
+				}
+				if u, ok := v.(*ssa.UnOp); ok {
+					addr := Desc(u.X)
+					found, n := "", 0
+					EachInstr(fn, func(i2 ssa.Instruction) {
+						if st, isSt := i2.(*ssa.Store); isSt && Desc(st.Addr) == addr {
+							n++
+							if mk, isMk := stripConv(st.Val).(*ssa.MakeSlice); isMk {
+								if ls := isLenOf(mk.Len); ls != nil {
+									found = Desc(ls)
+								}
+							}
+						}
+					})
+					if n == 1 {
+						return found
+					}
+				}
+				return ""
+			}
+			for _, g := range CmpGuards(in.Block()) {
+				if !g.Strict || Desc(stripConv(g.Lo)) != Desc(stripConv(idx)) {
+					continue
+				}
+				s := isLenOf(g.Hi)
+				if s == nil {
+					continue
+				}
+				if m := madeWithLenOf(base); m != "" && m == Desc(s) {
+					r.Ok(rule, construct, in.Pos(), "index < len(S) into a slice made with len(S)")
+					return
+				}
+				if m := madeWithLenOf(s); m != "" && m == Desc(base) {
+					r.Ok(rule, construct, in.Pos(), "index < len(xs) where xs was made with len(base)")
+					return
+				}
+			}
+		}
 		// (d) last element: len(base) − 1 under a non-empty guard
 		if c, ts := AffineTerms(idx); c == -1 && len(ts) == 1 && ts[0].K == 1 {
 			if s := isLenOf(ts[0].V); s != nil && sameValue(s, base) {
